@@ -121,6 +121,16 @@ struct Out
     std::string s;
     const unsigned char* base = nullptr;
     bool show_cur = true, show_sz = true; // which observations belong to the property being checked
+    std::string choices = "0", styles = "0"; // cyclic wrapper / iteration-style choice strings (C04 traversals)
+    std::size_t ci = 0, si = 0;
+    int choice()
+    {
+        return choices[ci++ % choices.size()] - '0';
+    }
+    int style()
+    {
+        return styles[si++ % styles.size()] - '0';
+    }
     void sz(u64 v)
     {
         if(show_sz)
